@@ -89,6 +89,7 @@ macro_rules! with_out {
             "f32" => { type $O = f32; $body },
             "of64" => { type $O = Option<f64>; $body },
             "i32" => { type $O = i32; $body },
+            "oi32" => { type $O = Option<i32>; $body },
             t => panic!("unknown output type {t}"),
         }
     }};
